@@ -18,6 +18,10 @@ WITNESS = {"prog": {"n": 2, "streams": [{"name": "S0", "src": "E0", "ctx": 0, "t
            "cap": 1,
            "sched": [("in", ("E0", 1, 5)), ("poll", 0), ("in", ("E0", 2, 5)), ("poll", 0), ("poll", 1), ("poll", 0), ("poll", 1), ("poll", 1)],
            "kind": "witness"}
+# second regression case of the same fix: a stream fed by a stream of its own context must fire once
+SELFROUTE = {"prog": {"n": 2, "streams": [{"name": "S0", "src": "E0", "ctx": 0, "thr": 0}, {"name": "S1", "src": "S0", "ctx": 0, "thr": 0},
+                                          {"name": "S2", "src": "S1", "ctx": 1, "thr": 0}]},
+             "cap": 4, "sched": [("in", ("E0", 1, 5)), ("poll", 0), ("poll", 1), ("poll", 0), ("poll", 1)], "kind": "witness"}
 
 
 def gen_case(rng, fanout=False):
@@ -109,8 +113,8 @@ def check(run):
     if binpath is None:
         return
     rng = run.rng
-    nrand = 160 if run.tier == "quick" else 4000
-    cases = [WITNESS] + [gen_case(rng) for _ in range(nrand)] + [gen_case(rng, fanout=True) for _ in range(nrand // 10)]
+    nrand = 120 if run.tier == "quick" else 4000
+    cases = [WITNESS, SELFROUTE] + [gen_case(rng) for _ in range(nrand)] + [gen_case(rng, fanout=True) for _ in range(nrand // 10)]
     answers = X.run_direct(binpath, cases)
     try:
         models = X.run_model("C26", cases)
@@ -129,7 +133,7 @@ def check(run):
             ok, sim, parts = X.correspond(run, case, ans, models[k], "C26")
             if not ok:
                 ntie += 1
-            elif parts[3].split(";")[0] != "D=1" and not X.fanout_types(case["prog"]):
+            elif parts[2].split(";")[0] != "D=1":
                 run.tie_broken("C26: model run violates delivery_exact (contradicts C26_delivery)", X.describe(case))
             elif sim is not None and not sim.delivery_exact():
                 run.tie_broken("C26: simulator run violates delivery_exact", X.describe(case))
